@@ -10,6 +10,7 @@ package main
 //   comments         the location of a kept element carries the comment of the element with the same full name
 //   total            a filter built from existing, non-conflicting names does not fail
 //   copy mode        without WithMutateInPlace the input image is not modified
+//   minimal          every file / element / import of the result is needed by something that survives (minimal.go)
 
 import (
 	"fmt"
@@ -295,6 +296,11 @@ func oracle(run *hx.Run, image bufimage.Image, pre *prepared, in caseInput, out,
 	// --- links, at option-value level ---
 	if linked {
 		optionValueOracle(run, pre, image, out, f, ex, orig, excludeOnly, mapOrderDependent, fail)
+	}
+	// --- minimal: every file / element / import of the result is needed by something that survives ---
+	if linked {
+		run.Count("minimal:results-judged")
+		minimalityOracle(pre, image, out, f, orig, got, pkgFiles, fail)
 	}
 	// --- includes present ---
 	includesPresent := true
